@@ -17,7 +17,7 @@ from vlib import observe, runner
 
 ID = "C12"
 LEVEL = "exploration"
-RULE = ("history = 2-12 runs drawn from the run pool (scripts x provider kind {shared default, long-lived user, fresh, faulty on j-th lookup} x "
+RULE = ("history = 2-12 runs drawn from the run pool (scripts x provider kind {shared default, long-lived user (dict-backed / SQLAlchemy on in-memory sqlite), fresh, faulty on j-th lookup} x "
         "config {none, DEFAULT_SCHEMA scope, tsql no-semicolon scope}), executed in one pristine forked process; every run is compared with its "
         "baseline from a fresh process and providers are probed after every run. threads: batches of 16-48 runs on a 16-thread pool. "
         "Non-trivial = the history contains a failing run followed by a run that reads a table the failed run had registered, or >= 2 runs share "
@@ -81,7 +81,24 @@ def run_pool():
     for s in TSQL_SCRIPTS:
         for prov in ("default", "md"):
             specs.append({"dialect": "tsql", "sql": s, "provider": prov, "config": {"TSQL_NO_SEMICOLON": True}})
+    # the other bundled provider (appended last: earlier indices stay what they were)
+    for d, s in SCRIPTS:
+        specs.append({"dialect": d, "sql": s, "provider": "sa", "config": None})
     return specs
+
+
+def make_sa():
+    """SQLAlchemyMetaDataProvider on in-memory sqlite holding the tables of MD (one ATTACHed database per schema)"""
+    from sqllineage.core.metadata.sqlalchemy import SQLAlchemyMetaDataProvider
+
+    p = SQLAlchemyMetaDataProvider("sqlite://")
+    with p.engine.connect() as c:
+        for schema in sorted({k.split(".")[0] for k in MD} - {"main"}):
+            c.exec_driver_sql(f"ATTACH ':memory:' AS {schema}")
+        for k, cols in MD.items():
+            c.exec_driver_sql(f"create table {k} (" + ", ".join(f"{x} int" for x in cols) + ")")
+        c.commit()
+    return p
 
 
 def spec_key(spec):
@@ -118,6 +135,8 @@ def execute_run(spec, provider_obj=None):
     if prov is None:
         if spec["provider"] == "md":
             prov = DummyMetaDataProvider(dict(MD))
+        elif spec["provider"] == "sa":
+            prov = make_sa()
         elif spec["provider"].startswith("faulty:"):
             prov = make_faulty(int(spec["provider"].split(":")[1]))
     scope = SQLLineageConfig(**spec["config"]) if spec["config"] else contextlib.nullcontext()
@@ -157,9 +176,14 @@ def exec_history(history, baselines):
     user = DummyMetaDataProvider(dict(MD))
     fresh_probe_md = probe_provider(DummyMetaDataProvider(dict(MD)))
     fresh_probe_default = probe_provider(DummyMetaDataProvider())
+    user_sa = fresh_probe_sa = None
     for step, (idx, use_user) in enumerate(history):
         spec = specs[idx]
         prov_obj = user if (use_user and spec["provider"] == "md") else None
+        if use_user and spec["provider"] == "sa":
+            if user_sa is None:
+                user_sa, fresh_probe_sa = make_sa(), probe_provider(make_sa())
+            prov_obj = user_sa
         got = execute_run(spec, prov_obj)
         base = baselines[spec_key(spec)]
         if json.dumps(got, sort_keys=True) != json.dumps(base, sort_keys=True):
@@ -170,6 +194,11 @@ def exec_history(history, baselines):
         if p1 != fresh_probe_md:
             return {"what": "long-lived provider no longer answers like a fresh one", "step": step, "spec": spec,
                     "diff": {t: [fresh_probe_md[t], p1[t]] for t in p1 if p1[t] != fresh_probe_md[t]}}
+        if user_sa is not None:
+            p3 = probe_provider(user_sa)
+            if p3 != fresh_probe_sa:
+                return {"what": "long-lived SQLAlchemy provider no longer answers like a fresh one", "step": step, "spec": spec,
+                        "diff": {t: [fresh_probe_sa[t], p3[t]] for t in p3 if p3[t] != fresh_probe_sa[t]}}
         p2 = probe_provider(default_provider())
         if p2 != fresh_probe_default:
             return {"what": "shared default provider no longer answers like a fresh one", "step": step, "spec": spec,
@@ -215,7 +244,7 @@ FAILING = {i for i, (d, s) in enumerate(SCRIPTS) if "create index" in s or "sele
 
 def nontrivial(history):
     specs = run_pool()
-    shared = sum(1 for idx, u in history if u and specs[idx]["provider"] == "md") >= 2 or \
+    shared = sum(1 for idx, u in history if u and specs[idx]["provider"] == "md") >= 2 or sum(1 for idx, u in history if u and specs[idx]["provider"] == "sa") >= 2 or \
         sum(1 for idx, u in history if specs[idx]["provider"] == "default") >= 2
     fail_then_read = False
     seen_fail = False
